@@ -213,10 +213,10 @@ CHECKS = {
                 'windows and dictionary words of the file, dictionary weights summed over the dictionaries a word belongs to by length bucket, and '
                 'score texts as those weights dictate (brute-force linear model); sampled truncations are rejected.',
         'design_ref': 'DESIGN.md section 5.C17',
-        'note': 'Not a proof. The shipped file has no dictionaries, so the dictionary path is exercised by 300 (3000 thorough) seeded SYNTHETIC KyTea '
+        'note': 'Not a proof of the property; discharged obligations exist for three blocks of the conversion only (unit K_kytea: the record built per character n-gram, per type n-gram and per dictionary word equals what the statement says, under stated ranges about the file). The shipped file has no dictionaries, so the dictionary path is exercised by 300 (3000 thorough) seeded SYNTHETIC KyTea '
                 'binaries (1-3 windows, 1-4 length buckets, 0-3 dictionaries with membership masks) written by an independent writer; their converted '
                 'content and scores are compared with what the generated file says. The known answer for the shipped file is a regression oracle.',
-        'technique': 'bounded sweep of the real reader/converter: the shipped model file (every truncation, recorded known answer) and seeded synthetic KyTea binaries with an independent reference (labelled stand-in, not proof)',
+        'technique': 'bounded sweep of the real reader/converter: the shipped model file (every truncation, recorded known answer) and seeded synthetic KyTea binaries with an independent reference (labelled stand-in, not proof); plus Verus contracts on three per-item blocks of the conversion extracted from /repo on every run',
     },
     'C20': {
         'level': 'exploration',
